@@ -962,6 +962,15 @@ func c11Plumbing(p *Prog, r *Report, rule string) {
 		// package-level variable holding one)
 		keyType := func(fi *FuncInfo) string {
 			res := ""
+			// (in the function itself or in a lookup helper of the package it calls; a typed constant key is the
+			// type together with its value)
+			for _, body := range p.deepBodies(fi) {
+				ast.Inspect(body, func(x ast.Node) bool { return keyVisit(fi, x, &res) })
+			}
+			return res
+		}
+		_ = func(fi *FuncInfo) string {
+			res := ""
 			ast.Inspect(fi.Decl.Body, func(x ast.Node) bool {
 				c, ok := x.(*ast.CallExpr)
 				if !ok || res != "" {
@@ -1526,4 +1535,29 @@ func recvDeclTypeName(d *ast.FuncDecl) string {
 		return id.Name
 	}
 	return ""
+}
+
+// keyVisit records the type (and constant value) of the key handed to context.WithValue / ctx.Value.
+func keyVisit(fi *FuncInfo, x ast.Node, res *string) bool {
+	c, ok := x.(*ast.CallExpr)
+	if !ok || *res != "" {
+		return true
+	}
+	var keyArg ast.Expr
+	if isFunc(fi.Pkg.TypesInfo, c, "context", "WithValue") && len(c.Args) == 3 {
+		keyArg = c.Args[1]
+	} else if sel, ok := c.Fun.(*ast.SelectorExpr); ok && sel.Sel.Name == "Value" && len(c.Args) == 1 {
+		if tv, ok := fi.Pkg.TypesInfo.Types[sel.X]; ok && strings.HasSuffix(tv.Type.String(), "context.Context") {
+			keyArg = c.Args[0]
+		}
+	}
+	if keyArg != nil {
+		if tv, ok := fi.Pkg.TypesInfo.Types[keyArg]; ok {
+			*res = tv.Type.String()
+			if tv.Value != nil {
+				*res += "=" + tv.Value.ExactString()
+			}
+		}
+	}
+	return true
 }
